@@ -104,7 +104,7 @@ func strings2(c *core.Ctx, alphabet []string, maxLen int, f func(s string)) int6
 }
 
 func run(c *core.Ctx) {
-	c.Rule = "outputs: every protojson.Marshal output of C20's enumeration (all option combinations) plus every string of <=2 symbols over an alphabet of all 32 control characters, DEL, quote, backslash, slash, 2/3/4-byte runes, U+2028 as StringValue, Struct key and Struct value must satisfy encoding/json.Valid AND an independent RFC 8259 recogniser, decode (encoding/json) to the original string, and Multiline/Indent output must decode to the same JSON value as compact output. inputs: every sequence of <=N tokens over {{ }} [ ] , : \"a\" \"b\" 1 true null space} and every character string of <=L over the number alphabet {- + 0 1 9 . e E}, the literal alphabet {t r u e f a l s n} and the string alphabet {\" \\\\ u 0 d 8 n / 0x1f 0x80 e-acute}, embedded as a value in 10 contexts (Value, ListValue, Struct, unknown field with DiscardUnknown, typed int/double/string/repeated/map fields, DoubleValue): whatever Unmarshal accepts must be valid JSON by both recognisers"
+	c.Rule = "outputs: every protojson.Marshal output of C20's enumeration (all option combinations) plus every string of <=2 symbols over an alphabet of all 32 control characters, DEL, quote, backslash, slash, 2/3/4-byte runes, U+2028 as StringValue, Struct key and Struct value must satisfy encoding/json.Valid AND an independent RFC 8259 recogniser, decode (encoding/json) to the original string, and Multiline/Indent output must decode to the same JSON value as compact output. inputs: every sequence of <=N tokens over {{ }} [ ] , : \"a\" \"b\" 1 true null space} and every character string of <=L over the number alphabet {- + 0 1 9 . e E}, the literal alphabet {t r u e f a l s n} and the string alphabet {\" \\\\ u 0 d 8 n / 0x1f 0x80 e-acute}, plus 12800 strings made of an escaped high surrogate followed by every pair of introducer bytes from {\\\\ u \" x U d 0 0x01 LF space}, 8 hex tails and 4 endings, embedded as a value in 10 contexts (Value, ListValue, Struct, unknown field with DiscardUnknown, typed int/double/string/repeated/map fields, DoubleValue): whatever Unmarshal accepts must be valid JSON by both recognisers"
 	c.Exhaustive = true
 	var nOut atomic.Int64
 	// ---- outputs
@@ -190,9 +190,29 @@ func run(c *core.Ctx) {
 	nLit := strings2(c, litAlpha, core.Pick(c, 5, 7), func(s string) { nIn.Add(input(c, s, "literal", 0b0000001111)) })
 	strAlpha := []string{`"`, `\`, "u", "0", "d", "8", "n", "/", "\x1f", "\x80", "é"}
 	nStrIn := strings2(c, strAlpha, core.Pick(c, 5, 6), func(s string) { nIn.Add(input(c, `"`+s, "string", 0b0101001111)) })
+	// escaped surrogate pairs with every one- and two-byte mutation of the second escape's introducer
+	var nSur int64
+	{
+		intro := []string{`\`, "u", `"`, "x", "U", "d", "0", "\x01", "\n", " "}
+		var list []string
+		for _, hi := range []string{`\ud83d`, `\uD83D`, `\udbff`, `\ud800`} {
+			for _, b0 := range intro {
+				for _, b1 := range intro {
+					for _, hex := range []string{"de00", "DE00", "dc00", "dfff", "d800", "0041", "e000", "de0"} {
+						for _, tail := range []string{`"`, "", `"x`, `x"`} {
+							list = append(list, `"`+hi+b0+b1+hex+tail)
+						}
+					}
+				}
+			}
+		}
+		c.Par(len(list), func(i int) { nIn.Add(input(c, list[i], "surrogate-pair", 0b0101001111)) })
+		nSur = int64(len(list))
+	}
 	_ = all
 	c.Eval(nIn.Load())
-	c.DistinctN(nTok + nNum + nNumQ + nLit + nStrIn)
+	c.DistinctN(nTok + nNum + nNumQ + nLit + nStrIn + nSur)
+	c.Bounds["surrogate_pair_strings"] = nSur
 	c.Bounds["token_sequences"] = nTok
 	c.Bounds["number_strings"] = nNum
 	c.Bounds["quoted_number_strings"] = nNumQ
